@@ -252,4 +252,21 @@ inline void show(char* out, std::size_t cap, T x)
     }
 }
 
+// block accounting for sweeps: n oracle-compared evaluations over n_distinct distinct inputs that are
+// disjoint from every other block by construction (same contract as vf::cover_bulk, but one hash-set
+// insertion per block instead of up to 4096, which dominated the run time of 10^5-block sweeps).
+inline void cover_block(char const* label, std::uint64_t n, std::uint64_t block_hash, std::uint64_t n_distinct)
+{
+    Shared* sh = g().sh;
+    if (!sh || n == 0) { return; }
+    sh->evals += n;
+    if (OpEnt* e = op_slot(label)) { e->n += n; }
+    if (n_distinct == 0) { return; }
+    dset_insert(mix(block_hash, fnv(label)));
+    if (n_distinct > 1) {
+        Json j;
+        j.str("k", "bulk").str("label", label).num("n", n).num("distinct", n_distinct - 1).emit();
+    }
+}
+
 } // namespace vf::fp
